@@ -6,10 +6,14 @@ import re
 import common as C
 import programs as P
 import semrun as S
+import t_stmt as T9
 
 PID = "C10"
 THEOREMS = ["bindings_immutable", "prefix_stable", "prefix_failure_propagates", "rebind_is_error", "reserved_is_error",
-            "func_depends_on_snapshot_and_args", "documented_reserved_words_rejected"]
+            "func_depends_on_snapshot_and_args", "documented_reserved_words_rejected",
+            "Stmt.statement_keeps_bindings", "Stmt.statement_binds_only_its_name", "Stmt.rebinding_is_error_in_every_form",
+            "Stmt.reserved_word_is_error_in_every_form", "Stmt.program_with_two_bindings_of_a_name_fails", "Stmt.program_prefix_stable",
+            "Stmt.constraint_statement_result", "Stmt.statement_leaves_stack_balanced"]
 
 
 def doc_reserved():
@@ -30,7 +34,7 @@ def scenarios(rng, n):
     out = []
     names = ["item", "a", "b", "x", "acc", "val", "mod", "it"]
     for _ in range(n):
-        k = rng.randint(0, 6)
+        k = rng.randint(0, 9)
         v1, v2, v3 = rng.randint(0, 50), rng.randint(0, 50), rng.randint(1, 9)
         nm = rng.choice([x for x in names if x != "mod"])
         if k == 0:   # format `item` must neither leak nor overwrite an outer binding of that name
@@ -74,6 +78,25 @@ def scenarios(rng, n):
                     ("let", "l", ("map", ("func", [nm], ("bin", "Mul", ("sym", nm), ("int", 2))), ("list", [("int", 1), ("int", v3)]))),
                     ("let", "chk", ("sym", nm))]
             out.append(prog)
+        elif k == 7:  # a closure made inside a function body sees that function's argument, not the outer binding of the same name
+            prog = [("let", nm, ("int", v1)),
+                    ("let", "mk", ("func", [nm], ("func", ["y"], ("bin", "Add", ("sym", nm), ("sym", "y"))))),
+                    ("let", "g", ("call", ("sym", "mk"), [("int", v2)])),
+                    ("let", "r", ("call", ("sym", "g"), [("int", v3)])),
+                    ("let", "chk", ("sym", nm))]
+            out.append(prog)
+        elif k == 8:  # a format expression inside a function body sees the argument
+            prog = [("let", nm, ("int", v1)),
+                    ("let", "show", ("func", [nm], ("fmts", [("s", "<"), ("e", ("sym", nm)), ("s", ">")], ("int", 0)))),
+                    ("let", "r", ("call", ("sym", "show"), [("int", v2)])),
+                    ("let", "chk", ("sym", nm))]
+            out.append(prog)
+        elif k == 9:  # a callback inside a format expression sees the format's `item`, not an outer `item`
+            prog = [("let", "item", ("int", v1)),
+                    ("let", "s", ("fmts", [("e", ("map", ("func", ["v"], ("bin", "Add", ("sym", "v"), ("sym", "item"))),
+                                                  ("list", [("int", 1), ("int", v3)])))], ("int", v2))),
+                    ("let", "chk", ("sym", "item"))]
+            out.append(prog)
         else:        # rebinding
             prog = [("let", nm, ("int", v1)), ("let", "other", ("int", v2)), ("let", nm, ("int", v3))]
             out.append(prog)
@@ -83,8 +106,17 @@ def scenarios(rng, n):
 def run(tier, seed):
     ck = C.Check(PID, tier, seed, "proof")
     cov = ck.coverage
-    pr = C.prove(ck, ["theories/props/C10_Props.vo"], "props.C10_Props", THEOREMS)
+    # T9: the opcode sequence of every statement form, read off translate_stmt, and the strictness of Bind / BindOver (vm.rs)
+    tr = T9.generate(C.REPO, C.GEN, C.write_if_changed)
+    cov["translator"] = tr["status"]
+    cov["tie"] = "generated" if tr["status"] == "generated" else "behavioural-fallback"
     broken = []
+    if tr["status"] != "generated":
+        C.write_if_changed(os.path.join(C.GEN, "StmtOps.v"), open(os.path.join(C.COQ, "snapshots", "StmtOps.v")).read())
+        broken.append({"translator": tr["status"]})
+    else:
+        cov["statement_tables"] = {k: " ".join(v) if isinstance(v, (list, tuple)) else str(v) for k, v in tr.get("tables", {}).items()}
+    pr = C.prove(ck, ["theories/props/C10_Props.vo"], "props.C10_Props", THEOREMS)
     if not pr["ok"]:
         broken.append({"obligations": "C10_Props", "built": pr["built"], "audit": pr["audit"],
                        "assumptions": pr["assumptions"], "log": pr["log_tail"][-1500:]})
@@ -183,6 +215,9 @@ def run(tier, seed):
     ck.assumptions = [
         "theorems are stated on the definitional semantics (sem/Sem.v); C01 ties the semantics to the compiled form",
         "the reserved-word list is read from docsite reference/_index.md on every run",
+        "statement layer (bind/Bind.v): opcode tables regenerated from translate_stmt and vm.rs on every run (T9); the code of a "
+        "sub-expression is abstract (pushes one value, leaves the current symbol table alone: what compile_correct shows for the "
+        "modelled fragment); op_bind/binding_push are the definitions of vm/Vm.v (tied by C01's correspondence) and the rebinding matrix",
     ]
     if real:
         r0 = min(real, key=lambda r: len(r["source"]))
